@@ -12,8 +12,11 @@ PROP = {
                    "touched outside a live block - and ends with zero outstanding blocks and elements iff nothing is left open in the list; (2) in an "
                    "accepted clean list, by positions and by counting: after each alloc the next event about that block is its matching dealloc, each "
                    "element's beginning is followed by exactly one end, no use after an end; (3) the traces produced by the models are accepted: "
-                   "ObjectManager::RelocateCreate / CopyExec for every relocation category, count and fault schedule; MemPool histories "
-                   "(allocate / deallocate / DeallocateIf / DeallocateAll / MergeFrom / failed allocation) return every buffer with its size. "
+                   "ObjectManager::RelocateCreate / CopyExec for every relocation category, count and fault schedule; every legal MemPool history "
+                   "(allocate / deallocate / DeallocateIf / DeallocateAll / MergeFrom / refused allocation) followed by DeallocateAll or the destructor "
+                   "returns every buffer exactly once with its size; every history of value operations of the C14 model (construct, copy, move, swap, "
+                   "assign, clear, mutate, wrapper operations over any managers) is accepted - each block returns to the manager class that allocated "
+                   "it - and is balanced once every object is destroyed. "
                    "Run time: every Allocate / Deallocate / Reallocate call and every constructor / destructor / assignment / functor use of "
                    "instrumented elements during random histories (with injected allocation failures, throwing copies, throwing hash / equality / "
                    "ordering functors, clear-with-shrink, copies, moves, swaps, merges between equal and unequal managers, destruction) of Array, "
@@ -22,9 +25,10 @@ PROP = {
                    "history both report zero outstanding blocks and zero live elements."),
     "level_note": ("PARTIAL. C03_full quantifies over the C++ containers and is not a theorem: for the real code the verified monitor judges the "
                    "histories that the generators reach (see counters), it does not cover all histories. Proved for all histories / fault schedules "
-                   "only for the traces of the models Obj (RelocateCreate, CopyExec), Pool (blockCount > 1 state machine) and Val (value operations); "
-                   "Arr / ArrSeg / HashTable / BTree / MMap / Table models emit no identity-carrying traces and are covered only by the monitor at run "
-                   "time. Memory safety proper (no read or write outside live blocks by the container code) is NOT proved: it is run-time evidence "
+                   "only for the traces of the models Obj (RelocateCreate, CopyExec: element events), Pool (blockCount > 1 state machine: buffer "
+                   "events, under the hypothesis FreshMallocs = the manager never answers with an outstanding address) and Val (block events of value "
+                   "operations; its element events carry values, not identities, and are not translated); Arr / ArrSeg / HashTable / BTree / MMap / "
+                   "Table models emit no identity-carrying traces and are covered only by the monitor at run time. Memory safety proper (no read or write outside live blocks by the container code) is NOT proved: it is run-time evidence "
                    "(ASan + UBSan on every harness, freed blocks kept poisoned until the end of the history); the ledger sees only the addresses of "
                    "element objects at construction / destruction (touch events). Trusted: Lean kernel + standard axioms, the recorder in "
                    "harness/c03_ledger.h (that it reports every manager call and element event), g++/ASan."),
@@ -45,15 +49,40 @@ PROP = {
         "Momo.Ledger.C03_obj_relocateCreate",
         "Momo.Ledger.C03_obj_copyExec",
         "Momo.Ledger.C03_obj_replay_is_monitor",
+        "Momo.Ledger.C03_pool_history_all_returned",
+        "Momo.Ledger.C03_pool_destroy_all_returned",
+        "Momo.Ledger.C03_pool_ledger_is_monitor",
+        "Momo.Ledger.C03_val_history_accepted",
+        "Momo.Ledger.C03_val_history_all_destroyed",
     ],
     "harnesses": [
-        {"name": "c03_array", "src": "c03_array.cpp", "sanitize": "asan", "timeout_quick": 600},
+        {"name": "c03_array", "src": "c03_array.cpp", "sanitize": "asan", "flags": ["-DC03_PART=0"], "timeout_quick": 600},
+        {"name": "c03_arrayx", "src": "c03_array.cpp", "sanitize": "asan", "flags": ["-DC03_PART=1"], "timeout_quick": 600},
+        {"name": "c03_segarray", "src": "c03_array.cpp", "sanitize": "asan", "flags": ["-DC03_PART=2"], "timeout_quick": 600},
+        {"name": "c03_hashset", "src": "c03_hash.cpp", "sanitize": "asan", "flags": ["-DC03_PART=0"], "timeout_quick": 600},
+        {"name": "c03_hashmap", "src": "c03_hash.cpp", "sanitize": "asan", "flags": ["-DC03_PART=1"], "timeout_quick": 600},
+        {"name": "c03_hashopen", "src": "c03_hash.cpp", "sanitize": "asan", "flags": ["-DC03_PART=2"], "timeout_quick": 600},
+        {"name": "c03_hashold", "src": "c03_hash.cpp", "sanitize": "asan", "flags": ["-DC03_PART=3"], "timeout_quick": 600},
+        {"name": "c03_treeset", "src": "c03_tree.cpp", "sanitize": "asan", "flags": ["-DC03_PART=0"], "timeout_quick": 600},
+        {"name": "c03_treemap", "src": "c03_tree.cpp", "sanitize": "asan", "flags": ["-DC03_PART=1"], "timeout_quick": 600},
+        {"name": "c03_treesmall", "src": "c03_tree.cpp", "sanitize": "asan", "flags": ["-DC03_PART=2"], "timeout_quick": 600},
+        {"name": "c03_multimap", "src": "c03_misc.cpp", "sanitize": "asan", "flags": ["-DC03_PART=0"], "timeout_quick": 600},
+        {"name": "c03_mempool", "src": "c03_misc.cpp", "sanitize": "asan", "flags": ["-DC03_PART=1"], "timeout_quick": 600},
+        {"name": "c03_datatable", "src": "c03_misc.cpp", "sanitize": "asan", "flags": ["-DC03_PART=2"], "timeout_quick": 600},
+        {"name": "c03_stdish", "src": "c03_misc.cpp", "sanitize": "asan", "flags": ["-DC03_PART=3"], "timeout_quick": 600},
     ],
-    "rule": ("Each history: two (or more) containers of one type over managers of equal or unequal identity classes, 40-120 random operations of the "
-             "container's whole mutating API, about one in three with an armed fault (k-th allocation refused, k-th element copy throws, k-th functor "
-             "call throws under extraCheckMode = nothing), then destruction of all but one container, Clear(true) of the last (must leave nothing but "
-             "the container's fixed blocks), destruction. Every manager call / element event is one op line. evaluations = histories; "
-             "distinct_nontrivial = distinct (family, operation, exception kind, k) that exited with an exception."),
+    "rule": ("14 executables (array x3, hash x4, tree x3, multimap, mempool, datatable, stdish), 45 container configurations. Each history: two "
+             "containers of one type (stdish: eight) over stateful managers of equal or unequal identity classes (chosen per history), 55-120 random "
+             "operations of the container's whole mutating API incl. copy / move construction and assignment, Swap, merges, extraction and "
+             "re-insertion, range operations, Reserve / Shrink / Clear(true|false), about one operation in three with an armed fault (k-th allocation "
+             "or Reallocate refused, k-th element copy throws, k-th hash / equality / ordering call throws - functor faults only with "
+             "extraCheckMode = nothing), then destruction of all but one container, Clear-with-shrink of the last (must leave only the blocks an "
+             "empty container holds and no element), destruction. Directed steps: TreeSet/TreeMap MergeTo into an empty destination with an equal "
+             "manager, source destroyed first, then node allocations (finding F27); DataTable copying constructors with the k-th row import failing, "
+             "probed in a forked child and then run in-process (finding F28). Every manager call / element construction, destruction, copy source, "
+             "assignment and functor argument / address of constructed and destroyed elements inside manager blocks is one op line for the Lean "
+             "monitor. evaluations = histories (quick 1440, thorough 21000 over two seeds); distinct_nontrivial = distinct (family, operation, "
+             "exception kind, k) that exited with an exception."),
     "runtime_only": ["ASan/UBSan on every history; blocks given back are kept poisoned until the end of the history, so a later access aborts",
                      "absence of out-of-bounds accesses inside live blocks",
                      "that the recorder sees every event (elements are instrumented types; plain integers have block events only)"],
